@@ -113,6 +113,13 @@ def same_value(a, b, tol, absval=False, modpi=False):
     if modpi and np.all(np.isfinite(x)) and np.all(np.isfinite(y)):
         d = np.abs(np.real(x) - np.real(y))
         return bool(np.all(np.minimum(d, np.abs(d - np.pi)) <= 1e-6))
+    if np.iscomplexobj(x) or np.iscomplexobj(y):
+        # an infinite value of a complex quotient has no meaningful sign / imaginary part (-inf for real input, inf+nanj for the
+        # same input given as complex numbers): non-finite positions only have to coincide
+        fx, fy = np.isfinite(x), np.isfinite(y)
+        if not np.array_equal(fx, fy):
+            return False
+        x, y = np.where(fx, x, 0), np.where(fy, y, 0)
     return bool(np.allclose(x, y, rtol=tol, atol=tol, equal_nan=True))
 
 
